@@ -3,7 +3,7 @@
 (* Design-level model of ParameterNumberMessageScanner on one channel:     *)
 (* machine x C11-ghost to a fixpoint over an abstract alphabet.             *)
 (***************************************************************************)
-EXTENDS PnScanner, TLC, Json
+EXTENDS PnRun, TLC, Json
 
 CONSTANTS V,        \* abstract value bytes
           ExtraCns  \* non-contributing controller numbers fed as well
